@@ -6,9 +6,10 @@ NOT_NAME = BLANK + '"()/:~'
 
 # non-ASCII blanks / line separators that must be ordinary name/string/comment characters
 EXOTIC = ['\xa0', '\u3000', '\u2028', '\u2029', '\x85', '\x1c', '\x1d', '\x1e', '\x0b', '\x0c']
-EXOTIC_NAME = ['\xa0', '\u3000', '\u2028', '\u2029', '\x85', '\x1c', '\x1d', '\x1e']  # VT/FF are ASCII blanks
+EXOTIC_NAME = ['\xa0', '\u3000', '\u2028', '\u2029', '\x85', '\x1c', '\x1d', '\x1e',  # VT/FF are ASCII blanks
+               '\ufeff', '\u200b', '\u0301', '\u0130', '\u212b', '\u01c5', '\u0663']   # BOM, ZWSP, combining, dotted I, Angstrom, titlecase, Arabic digit
 
-VARS = ['a', 'b', 'c', 'd', 'e', 'x1', '_', '_2', 'i', 'x', 'v1', 'z0', 'k', '_9', '_10']
+VARS = ['a', 'b', 'c', 'd', 'e', 'x1', '_', '_2', 'i', 'x', 'v1', 'z0', 'k', '_9', '_10', '1', '2.5', 'top', 'b0', 'n10']
 
 
 def fy(draw, xs):
@@ -41,7 +42,8 @@ _name_chars = st.one_of(
 def symbols(draw, max_size=8, exotic=True):
     """NameChar+ not starting with '#' (a leading '#' would be a comment)."""
     if not exotic or chance(draw, 3, 4):
-        s = draw(st.sampled_from(['a', 'b', 'alpha', 'x-01', '-', '+', '1', '1.5', '-3', 'a.b', 'b,c', '^x', "d'", '|', 'k#', 'A', 'i', '_']))
+        s = draw(st.sampled_from(['a', 'b', 'alpha', 'x-01', '-', '+', '1', '1.5', '-3', 'a.b', 'b,c', '^x', "d'", '|', 'k#', 'A', 'i', '_',
+                                  'None', 'null', 'true', 'C#', 'issue#12', '\ufeffKim', 'e\u0301', '\u0130stanbul', '1e21', '12345678901234567890']))
         return s
     s = draw(st.text(alphabet=_name_chars, min_size=1, max_size=max_size))
     if s.startswith('#'):
@@ -85,7 +87,7 @@ def alignments(draw, canonical=True):
     return '~' + pre + ','.join(nums)
 
 
-ROLE_POOL = [':ARG0', ':ARG1', ':ARG2', ':mod', ':domain', ':op1', ':op2', ':op10', ':op9', ':op11', ':op100', ':op99', ':polarity', ':quant',
+ROLE_POOL = [':Consist', ':PART-OF', ':INSTANCE', ':Mod', ':MOD', ':TOP', ':op01', ':op', ':op0', ':ARG0', ':ARG1', ':ARG2', ':mod', ':domain', ':op1', ':op2', ':op10', ':op9', ':op11', ':op100', ':op99', ':polarity', ':quant',
              ':', ':r', ':s', ':time', ':location', ':part', ':name', ':x2y9', ':x2y10', ':consist', ':poss', ':wiki']
 
 MODEL_NAMES = ['default', 'amr', 'noop', 'mini']
